@@ -806,10 +806,23 @@ class RGraph:
             for iid in rbuild.rcommits.keys()
         }
 
+        # commits reachable from the head of this branch. Not all of them
+        # are included into builds of this branch: the head itself may belong
+        # to one of the previous branches, such commits are not 'not merged'
+        reachable_from_head = set()
+        rc_stack = list(result_accumdata.rc_parents)
+        while rc_stack:
+            rc = rc_stack.pop()
+            if rc.iid not in reachable_from_head:
+                reachable_from_head.add(rc.iid)
+                rc_stack.extend(rc.parents)
+
         not_merged_rcommits = {
             iid: rcommit
             for iid, rcommit in all_commits_prev_branch.items()
-            if rcommit.is_explicit and iid not in all_commits_in_this_branch
+            if rcommit.is_explicit
+            and iid not in all_commits_in_this_branch
+            and iid not in reachable_from_head
         }
 
         # Get info about latest build in current branch - it will be a parent build
